@@ -1,7 +1,7 @@
 (* Executable correspondence checker and tree monitors for C06 (trench program trees). *)
 From Coq Require Import List Bool ZArith NArith QArith Qabs.
 Import ListNotations.
-From Femto Require Import Base.Num Ctl.Tok Ctl.Machine Geo.Rigid Pgm.Ops Trench.TreeProg Harness.Util.
+From Femto Require Import Base.Num Ctl.Tok Ctl.Machine Ctl.Static Geo.Rigid Pgm.Ops Trench.TreeProg Harness.Util.
 Open Scope Z_scope.
 
 Record colcase := {
@@ -107,6 +107,20 @@ Definition monitors (k : case) : list bool :=
   | _, _ => [false; true; true; true; true; true; true; true]
   end.
 
+(* the verified static checker (Ctl/Static.v, chk_sound) on femto's own calling files: accepted means that, from every
+   machine state with the shutter closed and for every behaviour of the called sub-programs that leaves the machine as
+   it found it, the file runs without controller error, exposes only during calls and pure z steps, and ends with the
+   shutter closed and nothing of its own left loaded *)
+Definition a0 : ast := {| a_sh := false; a_feed := false; a_loaded := []; a_decl := []; a_set := [] |}.
+Definition static_ok (toks : list tok) : bool :=
+  match parse toks with
+  | Some tree => match chk false a0 tree with
+                 | Some a => negb (a_sh a) && match a_loaded a with [] => true | _ => false end
+                 | None => false
+                 end
+  | None => false
+  end.
+
 Definition check (k : case) : N :=
   let c := k_cfg k in
   code_of ([
@@ -120,7 +134,8 @@ Definition check (k : case) : N :=
     forallb (fun cc => let d := cc_d cc in
                        let q := ((c_hbox d - c_zoff d) * t_k (tc c) / c_dz d)%Q in
                        Qle_bool (q - (1 # 1000000000))%Q (inject_Z (c_nrepeat d))
-                       && Qle_bool (inject_Z (c_nrepeat d)) (q + 1 + (1 # 1000000000))%Q) (k_cols k)
+                       && Qle_bool (inject_Z (c_nrepeat d)) (q + 1 + (1 # 1000000000))%Q) (k_cols k);
+    forallb (fun cc => static_ok (cc_farcall cc)) (k_cols k) && static_ok (k_main k)
   ]).
 
 Definition failing (cs : list case) : list (N * N) := failing_from check 0 cs.
